@@ -24,4 +24,5 @@ def run(ctx: Ctx) -> None:
     ctx.rule("R-RESOLVE-cache", "a memoised value depends only on what its key is computed from")
     ctx.run(resolve.check_resolve)
     ctx.run(resolve.check_cache_keys)
+    ctx.run(resolve.check_cached_values_not_mutated)
     ctx.assume("pathlib / os.walk semantics; pathspec matches gitignore-syntax patterns correctly")
